@@ -377,9 +377,14 @@ func (g *sqlGen) column(name string, tableIdx int) (cs colSpec, crudOK bool) {
 			d.Fields = append(d.Fields, &Field{Name: "C", Type: Ref(g.intEnum)})
 			fieldsSQL += ", C " + basicSQL(g.intEnum.Under.Basic)
 		}
-		if local && g.pr(0.3) {
+		nonJSON, forced := false, false
+		if local {
+			nonJSON = g.pr(0.3)
+			forced = !nonJSON && g.progIdx%3 == 0 // every third program has one whatever the draws (which are left untouched)
+		}
+		if nonJSON || forced {
 			// a field encoding/json does not see is still an attribute of the composite type
-			if g.pr(0.5) {
+			if (forced && g.progIdx%2 == 0) || (!forced && g.pr(0.5)) {
 				d.Fields = append(d.Fields, &Field{Name: "hidden", Type: Basic("int")})
 				fieldsSQL += ", hidden integer"
 			} else {
